@@ -63,6 +63,38 @@ P_FLAT = float(_os.environ.get("VERIF_QGEN_FLAT", "0.10"))
 P_CHAIN = 0.05  # ... and of an aggregate over two flattenings in a row
 
 
+P_ODD_BANK = 0.10
+
+
+def odd_bank(r, coll_name, bank, occ):
+    """Unusual but legal bank names: characters that cannot appear in an identifier, the collection's own name, a C++
+    keyword, mixed case, a very long one - and, once such a name is in the query, its *twin*: the name that differs only
+    where the first has a non-identifier character (whatever is derived from a bank name must keep the two apart)."""
+    import re
+    odd = [o["bank"] for o in occ if re.search(r"[^A-Za-z0-9_]", o["bank"])]
+    if odd and r.random() < 0.75:
+        return re.sub(r"[^A-Za-z0-9_]", "_", r.choice(odd))
+    k = weighted_choice(r, [("colon", 5), ("colon2", 3), ("dash", 1), ("own_name", 1), ("keyword", 1), ("long", 1), ("upper", 1),
+                            ("lower", 1), ("digit", 1)])
+    if k == "colon":
+        return bank + ":" + r.choice(["x", "PAT", "1"])
+    if k == "colon2":
+        return bank + "::" + r.choice(["PAT", "RECO"])
+    if k == "dash":
+        return bank + r.choice(["-v2", ".v2"])
+    if k == "own_name":
+        return coll_name
+    if k == "keyword":
+        return r.choice(["class", "new", "int", "return"])
+    if k == "long":
+        return bank + "_" + "L" * 70
+    if k == "upper":
+        return bank.upper()
+    if k == "lower":
+        return bank.lower()
+    return bank + r.choice(["1", "_1", "10"])
+
+
 class QGen:
     def __init__(self, rng, backend, max_depth=3):
         self.r = rng
@@ -112,6 +144,9 @@ class QGen:
         prev = [o["bank"] for o in self.occ if o["coll"] != name]
         if prev and self.r.random() < 0.15:
             bank = self.r.choice(prev)  # deliberately the bank name another collection of this query already uses
+        if self.r.random() < P_ODD_BANK or (any(":" in o["bank"] for o in self.occ) and self.r.random() < 0.8):
+            bank = odd_bank(self.r, name, bank, self.occ)
+            self.shape.append("odd_bank")
         self.occ.append({"coll": name, "bank": bank, "type": c["ctype"], "uncond": self.uncond})
         self.last = (name, bank)
         return f'{evar}.{name}("{bank}")', c["etype"]
